@@ -89,6 +89,11 @@ KF_STRING = "C06-kf-3"
 KF_DICTKEY = "C06-kf-4"
 KF_BYTES = "C06-kf-5"
 KF_SPLAT = "C06-kf-6"
+KF_NONEATTR = "C06-kf-7"
+KF_FUSED_META = "C06-kf-8"
+KF_COMPLEX_HEX = "C06-kf-9"
+KF_RESOURCE = "C06-kf-10"
+KF_FLOATDATA = "C06-kf-11"
 
 # ---------------------------------------------------------------------------- helpers
 _CTX = None
@@ -106,6 +111,13 @@ def xctx():
 
 def parse_attr(text: str):
     from xdsl.parser import Parser
+    if "dense_resource" in text:
+        # resource keys are deduplicated against a process-global table (OpAsmDialectInterface._blob_storage):
+        # parsing the same key in a second Parser renames it.  Each round trip starts from an empty table.
+        from xdsl.dialect_interfaces.op_asm import OpAsmDialectInterface
+        iface = xctx().get_dialect("builtin").get_interface(OpAsmDialectInterface)
+        if iface is not None:
+            iface._blob_storage.clear()
     return Parser(xctx(), text).parse_attribute()
 
 
@@ -1073,7 +1085,29 @@ def build(t):
             return b.NameLoc(b.StringAttr(uncps(t[2])), build(t[3]) if t[3] else b.NoneAttr())
         if t[1] == "callsite":
             return b.CallSiteLoc(build(t[2]), build(t[3]))
-        return b.FusedLoc(tuple(build(x) for x in t[2]), b.NoneAttr())
+        meta = build(t[3]) if len(t) > 3 and t[3] else b.NoneAttr()
+        return b.FusedLoc(tuple(build(x) for x in t[2]), meta)
+    if k == "strided":
+        return b.StridedLayoutAttr(t[1], t[2])
+    if k == "noneattr":
+        return b.NoneAttr()
+    if k == "opaque":
+        return b.OpaqueAttr.from_strings(uncps(t[1]), uncps(t[2]), build(t[3]) if t[3] else b.NoneAttr())
+    if k == "affset":
+        from xdsl.parser import Parser
+        return b.AffineSetAttr(Parser(xctx(), t[1]).parse_affine_set())
+    if k == "dense_complex":
+        et = t[1]
+        vals = [tuple((f64(unpack(et["f"], x)) if "f" in et else x) for x in pr) for pr in t[3]]
+        return b.DenseIntOrFPElementsAttr.from_list(b.TensorType(b.ComplexType(elem_ty(et)), t[2]), vals)
+    if k == "dense_resource":
+        return b.DenseResourceAttr.from_params(uncps(t[1]), build(t[2]))
+    if k == "intattr":
+        return b.IntAttr(t[1])
+    if k == "floatdata":
+        return b.FloatData(f64(t[1]))
+    if k == "signedness":
+        return b.SignednessAttr(b.Signedness(t[1]))
     if k == "affmap":
         from xdsl.parser import Parser
         return b.AffineMapAttr(Parser(xctx(), t[1]).parse_affine_map())
@@ -1082,12 +1116,17 @@ def build(t):
     if k == "shaped":
         el = build(t[2])
         shape = [b.DYNAMIC_INDEX if d < 0 else d for d in t[3]]
+        ex = [build(x) if x else b.NoneAttr() for x in t[4:]]     # optional parameters; absent = NoneAttr
         if t[1] == "tensor":
-            return b.TensorType(el, shape)
+            return b.TensorType(el, shape, *ex[:1])                 # encoding
         if t[1] == "vector":
+            if len(t) > 4 and t[4] is not None:                     # scalable-dimension flags
+                return b.VectorType(el, shape, b.ArrayAttr([b.BoolAttr(bool(f), b.i1) for f in t[4]]))
             return b.VectorType(el, shape)
         if t[1] == "memref":
-            return b.MemRefType(el, shape)
+            return b.MemRefType(el, shape, *ex[:2])                 # layout, memory space
+        if t[1] == "umemref":
+            return b.UnrankedMemRefType.from_type(el, *ex[:1])      # memory space
         return b.UnrankedTensorType(el)
     if k == "func":
         return b.FunctionType.from_lists([build(x) for x in t[1]], [build(x) for x in t[2]])
@@ -1168,6 +1207,16 @@ def attr_known(c, r=None):
             for kk, v in t[1]:
                 if not LEXER_FIXED and any(ch >= 128 for ch in kk):
                     return KF_DICTKEY
+        if k == "noneattr":
+            return KF_NONEATTR          # NoneAttr and NoneType are both spelled `none`
+        if k == "loc" and t[1] == "fused" and len(t) > 3 and t[3]:
+            return KF_FUSED_META        # `fused<metadata>[...]` is printed but not parsed
+        if k == "dense_complex" and "f" in t[1] and any(hex_branch(t[1]["f"], unpack(t[1]["f"], x)) for pr in t[3] for x in pr):
+            return KF_COMPLEX_HEX       # a complex component printed as a hexadecimal integer
+        if k == "dense_resource" and not IDENT_RE.fullmatch(uncps(t[1])):
+            return KF_RESOURCE          # resource handle printed verbatim, parsed as a bare identifier
+        if k == "floatdata" and not FLOAT_LIT_RE.fullmatch(repr(f64(t[1]))):
+            return KF_FLOATDATA         # #builtin.float_data<repr> : nan / inf / 1e+300 are not number literals
         if k == "loc" and t[1] in ("file", "name") and not LEXER_FIXED and any(ch >= 128 for ch in t[2]):
             return KF_STRING       # location file names / names are parsed with parse_optional_str_literal
         for x in t[1:]:
@@ -1200,9 +1249,22 @@ def rand_type(rng, depth):
     if depth <= 0 or r < 0.35:
         return ["ety", rand_etype(rng)]
     if r < 0.6:
-        kind = rng.choice(["tensor", "vector", "memref", "unranked"])
-        shape = [rng.choice([1, 2, 3, 7, -1 if kind in ("tensor", "memref") else 4]) for _ in range(rng.randint(0 if kind != "vector" else 1, 3))]
-        return ["shaped", kind, ["ety", rand_etype(rng)], shape]
+        kind = rng.choice(["tensor", "vector", "memref", "memref", "unranked", "umemref"])
+        shape = [rng.choice([1, 2, 3, 7, 0, -1 if kind in ("tensor", "memref") else 4]) for _ in range(rng.randint(0, 3))]
+        el = ["ety", rand_etype(rng)] if rng.random() < 0.85 else rng.choice([["complex", {"f": "f32"}], ["ety", {"w": -1, "s": 0}]])
+        if kind == "tensor":
+            return ["shaped", kind, el, shape, rng.choice([None, None, ["str", cps("enc")], ["int", 32, 0, 1], ["unit"]])]
+        if kind == "vector":
+            shape = [max(d, 1) for d in shape]
+            return ["shaped", kind, el, shape, rng.choice([None, [rng.randrange(2) for _ in shape]])]
+        if kind == "memref":
+            layout = rng.choice([None, None, rand_strided(rng, len(shape)), rand_strided(rng, len(shape)),
+                                 ["affmap", IDENT_MAPS[len(shape)]]])
+            space = rng.choice([None, None, ["int", 64, 0, rng.randint(0, 5)], ["str", cps("shared")], ["int", -1, 0, 2]])
+            return ["shaped", kind, el, shape, layout, space]
+        if kind == "umemref":
+            return ["shaped", kind, el, [], rng.choice([None, ["int", 64, 0, 3], ["str", cps("g")]])]
+        return ["shaped", kind, el, []]
     if r < 0.8:
         return ["func", [rand_type(rng, depth - 1) for _ in range(rng.randint(0, 3))],
                 [rand_type(rng, depth - 1) for _ in range(rng.randint(0, 3))]]
@@ -1211,6 +1273,15 @@ def rand_type(rng, depth):
     if r < 0.95:
         return ["complex", rng.choice([{"f": "f32"}, {"f": "f64"}, {"w": 32, "s": 0}])]
     return ["none"]
+
+
+IDENT_MAPS = ["() -> ()", "(d0) -> (d0)", "(d0, d1) -> (d1, d0)", "(d0, d1, d2) -> (d2, d0, d1)"]
+
+
+def rand_strided(rng, rank):
+    """StridedLayoutAttr: static (zero / positive / negative / huge) and dynamic (None) strides and offset"""
+    return ["strided", [rng.choice([1, 4, 0, -2, None, None, 10**12]) for _ in range(rank)],
+            rng.choice([0, 0, 5, -3, None, None, 2**40])]
 
 
 def rand_loc(rng, depth):
@@ -1223,11 +1294,46 @@ def rand_loc(rng, depth):
         return ["loc", "name", rand_text(rng, rng.random() < 0.8), rand_loc(rng, depth - 1) if rng.random() < 0.5 else None]
     if r < 0.9:
         return ["loc", "callsite", rand_loc(rng, depth - 1), rand_loc(rng, depth - 1)]
-    return ["loc", "fused", [rand_loc(rng, depth - 1) for _ in range(rng.randint(1, 3))]]
+    return ["loc", "fused", [rand_loc(rng, depth - 1) for _ in range(rng.randint(0, 3))],
+            rng.choice([None, None, ["str", cps("meta")], ["int", 32, 0, 7]])]
 
 
 AFFMAPS = ["(d0, d1) -> (d0, d1)", "(d0)[s0] -> (d0 + s0, d0 * 2)", "() -> ()", "(d0, d1)[s0, s1] -> (d0 floordiv 4, d1 mod 3 + s1)",
-           "(d0) -> (d0 ceildiv 8, -d0, d0 * -3 + 7)", "(d0, d1, d2) -> (d2, d0)"]
+           "(d0) -> (d0 ceildiv 8, -d0, d0 * -3 + 7)", "(d0, d1, d2) -> (d2, d0)", "() -> (5)", "()[s0] -> (s0, -7)",
+           "(d0) -> ()", "(d0)[s0, s1] -> (-d0 - s0 * 2, (d0 + 1) floordiv 2, d0 mod 4 + s1 * 0)",
+           "(d0, d1) -> (d0 * 1099511627776 + d1, 0)"]
+AFFSETS = ["(d0)[s0] : (d0 - s0 >= 0, d0 == 0)", "(d0) : (1 == 0)", "(d0, d1) : (d0 - d1 >= 0, d1 - 5 >= 0, d0 + d1 * -2 == 0)",
+           "()[s0] : (s0 - 1 >= 0)", "(d0) : (d0 floordiv 2 - 1 >= 0, d0 mod 3 == 0)"]
+
+
+def rand_special(rng, depth):
+    """values with `absent / dynamic / empty` special cases that the plain generators rarely hit"""
+    r = rng.random()
+    if r < 0.2:
+        return rand_strided(rng, rng.randint(0, 3))
+    if r < 0.3:
+        return ["noneattr"]
+    if r < 0.42:
+        return ["opaque", rand_text(rng, rng.random() < 0.7), rand_text(rng, rng.random() < 0.7),
+                rng.choice([None, ["ety", rand_etype(rng)], ["none"]])]
+    if r < 0.5:
+        return ["affset", rng.choice(AFFSETS)]
+    if r < 0.64:
+        et = rng.choice([{"f": "f32"}, {"f": "f64"}, {"f": "f16"}, {"w": 32, "s": 0}, {"w": 8, "s": 1}])
+        n = rng.choice([1, 2, 2, 3])
+        flat = rand_elem_payloads(rng, et, 2 * n, payload_pool(rng, et["f"], 3) if "f" in et else None)
+        if rng.random() < 0.25:
+            flat = flat[:2] * n
+        return ["dense_complex", et, [n], [flat[2 * i:2 * i + 2] for i in range(n)]]
+    if r < 0.72:
+        return ["dense_resource", rng.choice([cps("blob1"), cps("a.b_c$"), rand_name(rng)]),
+                ["shaped", "tensor", ["ety", rand_etype(rng)], [2, 3], None]]
+    if r < 0.8:
+        return ["intattr", rng.choice([0, 5, -5, 2**70, -2**63])]
+    if r < 0.92:
+        return ["floatdata", rng.choice([b64(v) for v in (1.5, -0.0, 0.1, 1e300, 1e-7, 1e22, 123456789.0, 5e-324)]
+                                        + [0x7FF8000000000000, 0x7FF0000000000000, 0xFFF0000000000000, rng.getrandbits(64)])]
+    return ["signedness", rng.randrange(3)]
 
 
 def rand_attr(rng, depth):
@@ -1270,8 +1376,10 @@ def rand_attr(rng, depth):
         return ["unit"]
     if r < 0.87:
         return rand_loc(rng, 2)
-    if r < 0.91:
+    if r < 0.9:
         return ["affmap", rng.choice(AFFMAPS)]
+    if r < 0.945:
+        return rand_special(rng, depth)
     return rand_type(rng, 2)
 
 
@@ -1279,6 +1387,7 @@ def attr_family(ctx, n):
     """full-attribute round trip on recursively generated builtin attributes (oracle only: no Coq model)"""
     rng = ctx.rng
     cases = [{"t": rand_attr(rng, 2)} for _ in range(n)]
+    cases += [{"t": rand_special(rng, 2) if i % 2 else rand_type(rng, 2)} for i in range(n // 3)]
     active = ctx.active_known_ids()
     fails, known_hits, kinds, nontriv = [], {}, {}, 0
     for c in cases:
@@ -1393,7 +1502,7 @@ def run(ctx: Ctx):
     thorough = ctx.tier == "thorough"
     rng = ctx.rng
     k = 6 if thorough else 1
-    for fam in ("string", "bytes", "dictkey", "dense", "densearray"):
+    for fam in ("string", "bytes", "dictkey", "dense", "densearray", "attr"):
         replay_findings(ctx, fam, FAMILIES[fam][0], FAMILIES[fam][1])
     keys = [{"k": n["root"]} for n in symref_cases(rng, 100 * k)]
     fcases = float_cases(rng, 24 * k, 4 * k)
